@@ -9,8 +9,13 @@ PROP = dict(
         # random walks far beyond the enumerated lengths (tlc -simulate, seed = VERIF_SEED)
         dict(module="PeerGrammarLong", cfg="PeerGrammarLong.cfg", emit=True, workers=2,
              simulate=dict(quick=dict(num=200, depth=30), thorough=dict(num=1000, depth=30)), timeout=dict(quick=300, thorough=900)),
+        # extension: HTTP/2 server push - which resources the push directive hands to http.Pusher for which request
+        # (specs/PushRules.tla, notes/PushRules.md): invariants + one CASE per site and per served request
+        dict(module="PushRules", cfg=dict(quick="PushRules_quick.cfg", thorough="PushRules_thorough.cfg"), emit=True, workers=8,
+             timeout=dict(quick=300, thorough=900)),
     ],
-    go=[dict(pkg="c19", test="TestC19", timeout=dict(quick=600, thorough=3000))],
+    go=[dict(pkg="c19", test="TestC19", timeout=dict(quick=600, thorough=3000)),
+        dict(pkg="cx19push", test="TestCx19Push", timeout=dict(quick=300, thorough=900))],
     traces=[dict(name="helloconn", module="HelloConnTrace", cfg="HelloConnTrace.cfg", timeout=900)],
     exhaustive=dict(quick=True, thorough=True),
     technique="TLA+ specs HelloConn.tla (every segmentation of a ClientHello into reads) and PeerGrammar.tla (token grammars of every peer-facing parser) enumerated by TLC; read-by-read traces of the real clientHelloConn validated by TLC against HelloConnTrace.tla; every enumerated input replayed into the real parsers under recover",
